@@ -96,6 +96,16 @@ prop('C11', 'other',
      'bases > 0; sequences <= 3 calls on 2 devices; xlsx/json writers (file I/O) outside; kvxopt mass matrix stubbed in exploration.',
      'symbolic execution of real conversion/alteration code + z3 identities', 'DESIGN.md 3/C11')
 
+prop('C10', 'other',
+     'Real DAE.request_address executed on z3 integers (symbolic counter start and device count, numpy.arange as the arithmetic '
+     'set it denotes) for nvar <= 8 and both layouts: blocks are pairwise disjoint, cover exactly the requested range, hold one '
+     'address per device, counter advances (linear integer arithmetic, unbounded device count). Tag flow on real Systems (int and '
+     'string indices, reversed add order, second addressing phase at TDS.init with GENCLS/GENROU/TGOV1/EXDC2): slot ownership, slot '
+     'names, and the same symbol read through model, Model.get, group, external variable/parameter and global vector.',
+     'tag flow is structural (solver decides equality of distinct symbols); systems of the catalogue only; GroupBase.get result '
+     'array allocated with object dtype in exploration.',
+     'SMT (LIA) over the real address allocator + symbolic tag flow through real link code', 'DESIGN.md 3/C10')
+
 ORDER = ['C%02d' % i for i in range(1, 21)]
 checks, na = [], []
 for pid in ORDER:
